@@ -274,10 +274,21 @@ impl Property for C06 {
                 }
                 initial.push(t);
             }
+            // large fixed arguments that carry no placeholder: they count against the budget of
+            // the substituted command line like everything else
+            let mut fixed_bytes = 0usize;
+            if rng.chance(1, 3) {
+                for _ in 0..rng.small(1, 12) {
+                    let l = rng.urange(1000, (budget / 16).clamp(2000, 120_000));
+                    fixed_bytes += l + 9;
+                    initial.push("f".repeat(l));
+                }
+                rng.shuffle(&mut initial);
+            }
             let shapes: Vec<(usize, usize)> = initial.iter().map(|t| template_shape(t)).collect();
             let m_max = shapes.iter().map(|s| s.1).max().unwrap_or(0).max(1);
             let m_sum = shapes.iter().map(|s| s.1).sum::<usize>().max(1);
-            let env_cost = env_vars * (env_val_len + 4 + 2 + 8) + 40;
+            let env_cost = env_vars * (env_val_len + 4 + 2 + 8) + 40 + fixed_bytes;
             let mut groups = vec![];
             for _ in 0..rng.small(1, 6) {
                 let l = match rng.weighted(&[3, 4, 4, 1]) {
@@ -321,6 +332,14 @@ impl Property for C06 {
         let mut initial = vec![];
         for _ in 0..rng.small(0, 3) {
             initial.push("i".repeat(rng.urange(1, 30)));
+        }
+        if rng.chance(1, 12) {
+            // hundreds of fixed arguments: each costs a pointer too
+            let n = rng.urange(300, (budget / 64).clamp(301, 4000));
+            let l = rng.urange(1, 3);
+            for _ in 0..n {
+                initial.push("i".repeat(l));
+            }
         }
         if words_per_line > 1 {
             // every -L group is a real fork+exec: keep their number in the low thousands
